@@ -135,9 +135,17 @@ func genScenario(t *rapid.T) scenario {
 
 		switch name {
 		case "Forwarded":
-			vals = []string{rapid.SampledFrom([]string{"for=6.6.6.6;proto=https;host=admin.example.com", "for=6.6.6.6, for=7.7.7.7", "for=\"[2001:db8::6]\""}).Draw(t, "v")}
+			// (parameter names are case-insensitive, RFC 7239, section 4; an element need not have a for parameter)
+			vals = []string{rapid.SampledFrom([]string{"for=6.6.6.6;proto=https;host=admin.example.com", "for=6.6.6.6, for=7.7.7.7", "for=\"[2001:db8::6]\"",
+				"For=6.6.6.6;Proto=https", "proto=https", "proto=https;host=admin.example.com, proto=http"}).Draw(t, "v")}
+			if rapid.IntRange(0, 3).Draw(t, "secondLine") == 2 {
+				vals = append(vals, "for=9.9.9.9;proto=http")
+			}
 		case "X-Forwarded-For":
 			vals = []string{rapid.SampledFrom([]string{"6.6.6.6", "6.6.6.6, 7.7.7.7", "2001:db8::6"}).Draw(t, "v")}
+			if rapid.IntRange(0, 3).Draw(t, "secondLine") == 2 {
+				vals = append(vals, "8.8.8.8, 9.9.9.9")
+			}
 		case "X-Forwarded-Proto":
 			vals = []string{rapid.SampledFrom([]string{"https", "http"}).Draw(t, "v")}
 		case "X-Forwarded-Host":
@@ -373,8 +381,20 @@ func TestForwardedHeadersOnlyFromTrustedPeers(t *testing.T) {
 				for _, name := range fwdNames {
 					for _, up := range resp.UpRecord.Header.Values(name) {
 						for _, f := range s.Forwards {
+							if f.Name != name {
+								continue
+							}
+
+							// every generated value carries an address or a name which the actual connection and request do not
+							// (but for "proto=https", which heimdall's own Forwarded element may well contain)
+							for _, marker := range []string{"6.6.6.6", "7.7.7.7", "8.8.8.8", "9.9.9.9", "2001:db8::6", "evil", "admin", "-again"} {
+								if strings.Contains(up, marker) {
+									t.Fatalf("upstream received the untrusted client's %s value: %q\n%s", name, up, s)
+								}
+							}
+
 							for _, v := range f.Values {
-								if f.Name == name && (strings.Contains(up, v) || strings.Contains(up, "6.6.6.6") || strings.Contains(up, "evil") || strings.Contains(up, "admin")) {
+								if up == v {
 									t.Fatalf("upstream received the untrusted client's %s value: %q\n%s", name, up, s)
 								}
 							}
@@ -398,24 +418,31 @@ func TestForwardedHeadersOnlyFromTrustedPeers(t *testing.T) {
 		// client address list
 		var ips []string
 
+		// (a header sent on several lines is one list; a Forwarded header which names no address at all says nothing about
+		// the addresses, X-Forwarded-For is then what is present)
 		for _, f := range s.Forwards {
 			if f.Name == "Forwarded" {
-				for _, el := range strings.Split(f.Values[0], ",") {
+				for _, el := range strings.Split(strings.Join(f.Values, ","), ",") {
 					for _, p := range strings.Split(el, ";") {
-						if v, ok := strings.CutPrefix(strings.TrimSpace(p), "for="); ok {
+						if k, v, ok := strings.Cut(strings.TrimSpace(p), "="); ok && strings.EqualFold(k, "for") {
 							ips = append(ips, v)
 						}
 					}
 				}
+
+				vkit.S.LabelIf(len(f.Values) > 1, "trusted_peer.forwarded_on_two_lines")
+				vkit.S.LabelIf(ips == nil, "trusted_peer.forwarded_without_address")
 			}
 		}
 
 		if ips == nil {
 			for _, f := range s.Forwards {
 				if f.Name == "X-Forwarded-For" {
-					for _, el := range strings.Split(f.Values[0], ",") {
+					for _, el := range strings.Split(strings.Join(f.Values, ","), ",") {
 						ips = append(ips, strings.TrimSpace(el))
 					}
+
+					vkit.S.LabelIf(len(f.Values) > 1, "trusted_peer.x_forwarded_for_on_two_lines")
 				}
 			}
 		}
